@@ -190,6 +190,7 @@ mod both {
             let (mut p, _a, _ents, ignore) = any_aparked(0);
             unsafe {
                 ps::ADD_CALLS = 0;
+                ps::ADD_KEY_RESIDENT = false;
             }
             sr::reset();
             let k = nd::any_u64();
